@@ -27,7 +27,8 @@ SCHEMA_NAMES = [
 ]
 HOSTILE_SCHEMA_NAMES = ["pet_owner", "HTTPResponse", "foo-bar", "Foo.Bar", "Self", "date", "Enum", "Field"]
 RESERVED_SCHEMA_NAMES = ["List", "Any", "Model", "Optional", "Union", "Dict", "data", "type", "UUID"]  # shadow typing imports / reserved-name suffixing
-SUFFIXED_SCHEMA_NAMES = ["Id", "Type", "Email", "Json", "Copy"]  # class name gets a reserved-name suffix (Id_), nothing is shadowed
+SUFFIXED_SCHEMA_NAMES = ["Id", "Type", "Email", "Json", "Copy"]
+EXCEPTION_LIKE_SCHEMA_NAMES = ["NotFoundError", "ConflictError", "BadRequestError", "UnprocessableEntityError", "InternalServerError", "HTTPError"]  # names of the core's exception classes / status aliases  # class name gets a reserved-name suffix (Id_), nothing is shadowed
 PROP_NAMES = ["id", "name", "value", "count", "tags", "createdAt", "created_at", "created_at_2", "updated", "userId", "user_id", "kind", "status",
               "parent", "children", "next", "owner", "label", "price", "active", "notes", "ref", "size", "code"]
 HOSTILE_PROP_NAMES = ["user-id", "class", "from", "type", "data", "items", "self", "1st", "Ünï",
@@ -178,7 +179,10 @@ def _node(draw, g: Gate, names: list[str], depth: int, self_name: str | None, la
             return {"type": "object", "additionalProperties": node}
         return node
     if kind == "array_prim":
-        return {"type": "array", "items": _primitive(draw, g)}
+        node = {"type": "array", "items": _primitive(draw, g)}
+        if g.flag(draw, "nullable_array", 1, 4):
+            node["nullable"] = True  # the array itself may be null (its items may be nullable as well)
+        return node
     if kind == "map_prim":
         return {"type": "object", "additionalProperties": _primitive(draw, g)}
     if kind == "map_any":
@@ -211,7 +215,9 @@ def _object(draw, g: Gate, names: list[str], depth: int, self_name: str | None, 
         if pn in props:
             continue
         node = _node(draw, g, names, depth, self_name, later)
-        if _promotable(node) and (any(_py(pn) == _py(q) for q in props) or _cls(pn) in {_cls(x) for x in names}):
+        declared_cls = {_cls(x) for x in names}
+        synth_clash = _cls(pn) in declared_cls or (self_name is not None and _cls(self_name) + _cls(pn) in declared_cls)  # Pet.owner vs schema pet_owner
+        if _promotable(node) and (any(_py(pn) == _py(q) for q in props) or synth_clash):
             # the synthesised type name would collide with a sibling's / a declared schema's: known findings C03-F03/F04
             feat = "colliding_props_promotable" if any(_py(pn) == _py(q) for q in props) else "prop_class_equals_schema_name"
             if feat in g.exclude:
@@ -241,6 +247,9 @@ def _object(draw, g: Gate, names: list[str], depth: int, self_name: str | None, 
                 props[pn] = {"type": draw(st.sampled_from(["string", "integer", "boolean"]))}
     req = [p for p in props if draw(st.booleans())]
     node: dict[str, Any] = {"type": "object", "properties": props}
+    if props and g.flag(draw, "props_plus_additional_schema", 1, 10):
+        # declared properties next to additionalProperties given as a schema: still an object model with those fields
+        node["additionalProperties"] = draw(st.sampled_from([{"type": "string"}, {"type": "integer"}, {}]))
     if req:
         node["required"] = req
     if g.flag(draw, "description", 1, 5):
@@ -565,6 +574,11 @@ def _response(draw, g: Gate, names: list[str], code: str, success: bool, schemas
         return resp
     if kind == "json":
         sch = _resp_schema(draw, g, names)
+        exc_like = getattr(g, "exception_like_payloads", [])
+        if exc_like and not success and draw(st.booleans()):
+            sch = _ref(draw(st.sampled_from(exc_like)))  # an ERROR payload schema named like one of the core's exception classes
+        elif exc_like and success and g.flag(draw, "exception_like_schema_name", 1, 6):
+            sch = _ref(draw(st.sampled_from(exc_like)))  # the same schema as a SUCCESS body: the endpoint module imports the model (C06-F01)
         if success and _formatted_primitive(sch, schemas_ctx or {}):
             # a formatted primitive (uuid/date/...) as the whole response is cast, not converted: finding C05-F04
             if not g.flag(draw, "resp_formatted_primitive", 1, 1):
@@ -585,6 +599,12 @@ def _response(draw, g: Gate, names: list[str], code: str, success: bool, schemas
         if success and _formatted_primitive(sch, schemas_ctx or {}) and not g.flag(draw, "resp_formatted_primitive", 1, 1):
             sch = {"type": "string"}
         resp["content"] = {"application/json": {"schema": sch}, "text/plain": {"schema": {"type": "string"}}}
+        if g.flag(draw, "resp_multi_media_many", 1, 3):
+            # three to five media types, several of which map to the same Python type (str / bytes); no binary FORMAT (that would
+            # turn the response into a stream)
+            extra = draw(st.lists(st.sampled_from(["text/csv", "text/html", "image/png", "image/jpeg", "application/pdf"]), min_size=1, max_size=3, unique=True))
+            for mt in extra:
+                resp["content"][mt] = {"schema": {"type": "string"}} if mt.startswith("text/") else {}
         if draw(st.booleans()):
             resp["content"] = dict(reversed(list(resp["content"].items())))
     return resp
@@ -698,7 +718,8 @@ def _operation(draw, g: Gate, names: list[str], path: str, path_vars: list[str],
             continue
         if g.flag(draw, "path_level_param_overridden", 1, 4):
             # the operation re-declares the path-level parameter (same name and location): the operation's declaration wins
-            params.append({"name": pl_name, "in": pl_loc, "required": draw(st.booleans()), "schema": {"type": draw(st.sampled_from(["string", "integer"]))}})
+            ov_type = "string" if (pl_loc == "header" and "header_param_non_string" in g.exclude) else draw(st.sampled_from(["string", "integer"]))
+            params.append({"name": pl_name, "in": pl_loc, "required": draw(st.booleans()), "schema": {"type": ov_type}})
         elif "param_same_name_two_locations" not in g.exclude and g.flag(draw, "path_level_param_same_name_other_location", 1, 3):
             # the operation declares a DIFFERENT parameter with the same name in another location: both must stay
             other = "header" if pl_loc == "query" else "query"
@@ -775,6 +796,27 @@ def _operation(draw, g: Gate, names: list[str], path: str, path_vars: list[str],
             responses[code] = _response(draw, g, names, code, False)
     if not responses:
         responses["default"] = {"description": "Default"}
+    if not any(str(c).startswith("2") for c in responses):
+        for r in responses.values():
+            if _is_streaming(r, schemas_ctx):
+                # no 2xx and a binary/stream payload on an error response: the error response becomes "primary", the method is
+                # annotated AsyncIterator but its body only raises (C13-F01)
+                if "no_2xx_streaming_error_payload" in g.exclude:
+                    g.excluded["no_2xx_streaming_error_payload"] += 1
+                    r.pop("content", None)
+                else:
+                    g.used["no_2xx_streaming_error_payload"] += 1
+        # without a 2xx response an error response becomes the "primary" one and its payload model is imported by the endpoint
+        # module: with an exception-like name that is the success-position trigger of C06-F01
+        for r in responses.values():
+            for m in (r.get("content") or {}).values():
+                ref = (m.get("schema") or {}).get("$ref", "")
+                if ref.split("/")[-1] in getattr(g, "exception_like_payloads", []):
+                    if "exception_like_schema_name" in g.exclude:
+                        g.excluded["exception_like_schema_name"] += 1
+                        m["schema"] = {"type": "object", "properties": {"message": {"type": "string"}}}
+                    else:
+                        g.used["exception_like_schema_name"] += 1
     op["responses"] = responses
     return op
 
@@ -804,6 +846,13 @@ def specs(draw, gate: Gate | None = None, max_schemas: int = 5, max_ops: int = 4
     schemas: dict[str, Any] = {}
     for i, n in enumerate(names):
         schemas[n] = _top_schema(draw, g, n, names, i)
+    g.exception_like_payloads = []
+    if g.flag(draw, "exception_like_error_payload", 1, 5):
+        # error payload schemas named like the core's exception classes / status aliases; referenced from responses only
+        for n in draw(st.lists(st.sampled_from(EXCEPTION_LIKE_SCHEMA_NAMES), min_size=1, max_size=2, unique=True)):
+            if not any(_cls(n).lower() == _cls(m).lower() for m in names):
+                schemas[n] = {"type": "object", "properties": {"message": {"type": "string"}, "code": {"type": "integer"}}}
+                g.exception_like_payloads.append(n)
     for n_, node_ in schemas.items():
         # a component object schema that is itself nullable (arrays / maps / properties referring to it may then hold null)
         if isinstance(node_, dict) and node_.get("type") == "object" and "properties" in node_ and g.flag(draw, "nullable_component", 1, 8):
@@ -840,6 +889,9 @@ def specs(draw, gate: Gate | None = None, max_schemas: int = 5, max_ops: int = 4
                                            "in": draw(st.sampled_from(["query", "query", "header"])), "required": False, "schema": {"type": "string"}})
             path_level = {(p["in"], p["name"]) for p in item["parameters"]}
         item[method] = _operation(draw, g, names, path, pvars, method, oi, path_level, schemas)
+    for p_, item_ in paths.items():
+        if "parameters" in item_ and g.flag(draw, "path_level_parameters_key_last", 1, 2):
+            item_["parameters"] = item_.pop("parameters")  # same path item, "parameters" written after the operations
     all_ops = [(p, m, item[m]) for p, item in paths.items() for m in item if m in METHODS]
     if len(all_ops) >= 2 and g.flag(draw, "opid_collision_cluster", 1, 6):
         # operationIds equal after sanitisation, plus one that equals the de-duplication suffix form, inside ONE tag client
